@@ -136,10 +136,11 @@ def impl(case):
 
 def make_case(rng, i, tier):
     kind = rng.choice(KINDS)
-    desc, shape = gen.gen_cfg(rng, maxrules=5 if "cky" in kind else 6, nterms=2, nnt=rng.choice([1, 2, 2, 3]))
+    desc, shape = gen.gen_cfg(rng, maxrules=5 if "cky" in kind else 6, nterms=rng.choice([2, 3]), nnt=rng.choice([1, 2, 2, 3]),
+                              shape="mutual_left_rec" if rng.random() < 0.25 else None)
     V = desc["V"]
     base = []
-    for _ in range(3):
+    for _ in range(5):
         s = gen.sample_string(rng, desc, maxlen=5) or [rng.choice(V) for _ in range(rng.randint(1, 4))]
         base.append(s)
     ops = []
